@@ -303,6 +303,7 @@ func (p *typeLoader) pos() token.Pos {
 }
 
 func (p *typeLoader) load() {
+	verifStep()
 	doNewType(p)
 	doInitType(p)
 	doInitMethods(p)
